@@ -446,13 +446,22 @@ def _r2(ck: Checker, prog: Program):
         ck.violation(P + "R2", fq, "counting loop", "records are not counted per `record.ns.dt_in_seconds` (one increment per record)", loc=f.loc())
     # policies
     branches = {}
-    cur = [st for st in f.node.body if isinstance(st, ast.If)]
-    node = cur[0] if cur else None
-    while isinstance(node, ast.If):
-        t = node.test
-        if isinstance(t, ast.Compare) and isinstance(t.comparators[0], ast.Constant) and unparse(t.left) == "settings.handle_dissimilar_time_steps_by":
-            branches[t.comparators[0].value] = node
-        node = node.orelse[0] if len(node.orelse) == 1 and isinstance(node.orelse[0], ast.If) else None
+    from ..resolve import canon as _canon
+    RP = Resolver(prog, f, inline=False)
+    subject = _canon(RP.expect("settings.handle_dissimilar_time_steps_by"))
+    for top in [st for st in f.node.body if isinstance(st, ast.If)]:
+        node = top          # an if / elif ladder, or a sequence of `if policy == ...: ...; return`
+        while isinstance(node, ast.If):
+            t = node.test
+            if isinstance(t, ast.Compare) and len(t.ops) == 1 and isinstance(t.ops[0], ast.Eq) and isinstance(t.comparators[0], ast.Constant) \
+                    and isinstance(t.comparators[0].value, str):
+                try:
+                    subj = _canon(RP.value(t.left, node))
+                except AnalysisError:
+                    subj = None
+                if subj == subject:
+                    branches[t.comparators[0].value] = node
+            node = node.orelse[0] if len(node.orelse) == 1 and isinstance(node.orelse[0], ast.If) else None
     want = {"frequency_domain_resampling", "keeping_smallest_time_step", "keeping_majority_time_step"}
     if set(branches) != want:
         ck.violation(P + "R2", fq, "policies", f"policies handled: {sorted(branches)}; expected {sorted(want)}", loc=f.loc())
@@ -572,7 +581,9 @@ def _selection(f, body, lst, ret):
             problems.append(f"the counter `{counter}` does not start at 0")
     for x in blk:
         if isinstance(x, ast.If):
-            fine = isinstance(x.test, ast.Compare) and isinstance(x.test.ops[0], ast.Eq) and counter is not None and unparse(x.test.left) == counter \
+            # the running number of selected records: an explicit counter, or the length of the list they are appended to
+            fine = isinstance(x.test, ast.Compare) and isinstance(x.test.ops[0], ast.Eq) \
+                and ((counter is not None and unparse(x.test.left) == counter) or unparse(x.test.left) == f"len({lst})") \
                 and all(isinstance(y, ast.Break) for y in x.body) and not x.orelse
             total = unparse(x.test.comparators[0]) if isinstance(x.test, ast.Compare) else "?"
             scan = _majority_scan(body)
